@@ -16,6 +16,11 @@ def run(ctx):
         raise vlib.ToolError("MC_Merger_witness: the merger as coded no longer violates the statement - update Merger.tla (asCode) and DESIGN 11.5")
     rec = ctx.path("c16-records.ndjson")
     summ = vlib.agv_ok(ctx, ["drive", "c16", "--corpus", vlib.CORPUS, "--seed", ctx.seed, "--tier", ctx.tier, "--out", rec], timeout=3000)
+    # vacuity guards: the shapes added for particular clauses must really produce records
+    if not summ.get("secondary_labels_judged"):
+        raise vlib.ToolError("C16: no printed secondary label was judged - the relational-rule cases lost their matches")
+    if not any(x["id"].startswith("custom-injection") and x.get("items") for x in vlib.read_ndjson(rec)):
+        raise vlib.ToolError("C16: the custom language injection cases printed no record")
     n, fails = vlib.validate_trace(ctx, "trace/Trace_C16.tla", "trace/Trace_C16.cfg", rec, timeout=3000)
     bad = set()
     for f in fails:
